@@ -438,7 +438,7 @@ func c13Scenarios(tier string) []engine.Scenario {
 				return w
 			},
 			Model: c13Model, Monitor: c13Monitor, Cover: c13Cover,
-			Actions: c13Actions(false, tier == "thorough"),
+			Actions: c13Actions(false, true),
 		}
 		out = append(out, engine.Sharded(sc, 8)...)
 	}
